@@ -1080,6 +1080,8 @@ def realistic_model(eng, extra=None, rounds=12):
                 m = s.model()
             return m
         tame = [z3.And(c >= -30, c <= 30) for c in reals]
+        tame += [z3.And(x >= -30, x <= 30) for _, x in eng.apps
+                 if z3.is_real(x)]
         lemmas = []
         use_tame = bool(tame)
         for _ in range(rounds):
